@@ -20,7 +20,8 @@ from ..models import dpkgver
 PROP = 'C03'
 LEVEL = 'exploration'
 RULE = ('Pool of valid version strings from structured generators (leading zeros, ~ chains, ~ at end, '
-        'letters vs +/./-, digit/non-digit misalignment, epoch 0/absent/00, revision absent/0); every ordered '
+        'letters vs +/./-, digit/non-digit misalignment, epoch 0/absent/00, revision absent/0; plus ~90 versions with digit runs of '
+        '9..31 digits, with and without leading zeros, in upstream / revision / epoch); every ordered '
         'pair of the pool is compared with all operators.  A pair is non-trivial when the two strings differ '
         'and share a common prefix of >= 1 character (decided inside the algorithm, not on the first character).')
 ASSUMPTIONS = ['vp.models.dpkgver is a faithful port of dpkg lib/dpkg/version.c (cross-checked against the dpkg binary in the thorough tier)',
@@ -34,8 +35,10 @@ ANCHORS = ['debian.debian_support:NativeVersion._compare',
            'debian.debian_support:version_compare']
 MUST_REACH = ['debian.debian_support:NativeVersion._compare', 'debian.debian_support:version_compare',
               'debian.debian_support:BaseVersion.__hash__']
-FLOORS = {'quick': {'nontrivial': 20000, 'monitors': {'M.pair': 100000, 'M.hash': 200, 'M.triple': 20000}},
-          'thorough': {'nontrivial': 500000, 'monitors': {'M.pair': 4000000, 'M.hash': 1800, 'M.triple': 500000}}}
+FLOORS = {'quick': {'nontrivial': 20000, 'monitors': {'M.pair': 100000, 'M.hash': 200, 'M.triple': 20000},
+                    'counters': {'pair:long-digit-run': 25000, 'pair:long-digit-run-both': 1400}},
+          'thorough': {'nontrivial': 500000, 'monitors': {'M.pair': 4000000, 'M.hash': 1800, 'M.triple': 500000},
+                       'counters': {'pair:long-digit-run': 150000, 'pair:long-digit-run-both': 1400}}}
 
 POOL = {'quick': 400, 'thorough': 2800}
 TRIPLES = {'quick': 120000, 'thorough': 3000000}
@@ -84,6 +87,31 @@ def gen_version(r):
     return s
 
 
+def long_digit_runs():
+    """Digit runs around the lengths where a machine word / a float / a fixed-width shortcut would give out (9, 10, 18,
+    19, 20, 30 digits), with and without leading zeros, in the upstream part, the revision and the epoch.  dpkg compares
+    digit runs as numbers of any length (leading zeros skipped, then by length, then by first difference)."""
+    out = []
+    for k in (0, 1, 8, 9, 10, 17, 18, 19, 20, 30):
+        for tail in ('5', '6', '15'):
+            out.append('1.' + '0' * k + tail)
+            out.append('1-' + '0' * k + tail)
+    for k in (9, 10, 18, 19, 20, 30):
+        out.append('1.' + '9' * k)
+        out.append('1.1' + '0' * k)
+        out.append('1.1' + '0' * (k - 1) + '1')
+        out.append('1-' + '9' * k)
+    for k in (8, 17, 18, 19, 25):
+        out.append('0' * k + '1:1')
+        out.append('0' * k + ':1')
+    return out
+
+
+def is_long_run(v):
+    import re
+    return any(len(m) > 15 for m in re.findall(r'[0-9]+', v))
+
+
 def build_pool(seed, n):
     import random
     r = random.Random('C03-pool/%d' % seed)
@@ -91,7 +119,9 @@ def build_pool(seed, n):
                 '1.0~a', '1.0a', '1.0+', '1.0.', '1.0-', '1.a', '1a', '1A', '1z', '1+', '1.', '1~', '1-1', '1-~1',
                 '1-a', '1-1.', '1-1~', '1.0-1-1', '1-1-1', '2:1', '1:2', '10', '9', '010', '1.10', '1.9', '1.09',
                 '1:1:2', '1:1a2', '1:1+2', '1:1.2', '1:1-2', '1:1~2', '01:1:', '1:1:', '1:1:a', '1:1::', '0:1:1-1'])
+    pool |= set(long_digit_runs())
     pool = set(v for v in pool if dpkgver.classify(v) == 'accept')
+    n += len(pool)
     while len(pool) < n:
         v = gen_version(r)
         if dpkgver.classify(v) == 'accept' and len(v) <= 24:
@@ -135,6 +165,10 @@ def check_pair(ctx, a, b, va, vb):
     if nontrivial_pair(a, b):
         ctx.nontrivial(case={'a': a, 'b': b})
     small = {'kind': 'pair', 'a': a, 'b': b}
+    if is_long_run(a) or is_long_run(b):
+        ctx.count('pair:long-digit-run')
+        if is_long_run(a) and is_long_run(b):
+            ctx.count('pair:long-digit-run-both')
     got = ds.version_compare(a, b)
     if sgn(got) != ref:
         ctx.violation('order-disagrees-with-dpkg', 'version_compare(%r,%r)=%r, dpkg order says %d' % (a, b, got, ref), small)
